@@ -28,6 +28,15 @@ def parseBlock (s : String) : Option (List Tx) :=
 def parseCrash (s : String) : Option (Option Nat) :=
   if s = "-" then some none else s.toNat?.map some
 
+/-- `mid=j`: the crash falls inside the next state-store effect after `j` of its database writes,
+at the latest before its last one — which is the write that commits the effect
+(state/store.go: the SetSync of the state / of the last-responses record), so for the model it is
+the same crash point -/
+def midOk (toks : List String) : Bool :=
+  match kv toks "mid" with
+  | some s => match s.toNat? with | some x => x ≤ 9 | none => false
+  | none => true
+
 def showCall : Call → String
   | .initChain => "I"
   | .begin h => s!"B{h}"
@@ -84,7 +93,11 @@ def mpLine (v : Ver) (s : MS) : String :=
   if v = .v0a ∨ v = .v1a then
     -- asynchronous connection: the commit request is at the gate, the unanswered mempool requests
     -- are listed in connection (FIFO) order
-    let g := match s.cpc with | .commitGate => "commit" | _ => "-"
+    -- the flush answer is held at the gate once everything queued before it has been answered
+    let g := match s.cpc with
+      | .commitGate => "commit"
+      | .flushGate => if (MempoolLock.step v s .relFlush).isSome then "flush" else "-"
+      | _ => "-"
     let q := s.queue.map fun p => if p.1 then s!"recheck:{p.2}" else s!"check:{p.2}"
     s!"gate={g} queue={if q.isEmpty then "-" else ",".intercalate q} pool={s.pool}"
   else
@@ -127,7 +140,7 @@ def step (st : St) (toks : List String) : St × String :=
       if bs.length = n ∧ 1 ≤ ih ∧ ih ≤ 1000 ∧ (dis = "0" ∨ dis = "1") then ({ ih := ih, blocks := bs, retainK := rk }, "ok") else (st, "bad-op")
     | _, _, _ => (st, "bad-op")
   | "start" :: rest =>
-    match (kv rest "crash").bind parseCrash with
+    match (if midOk rest then (kv rest "crash").bind parseCrash else none) with
     | some k =>
       let r := handshake c st.sys.disk
       let s' := stepSys c st.sys (.start k)
@@ -138,7 +151,7 @@ def step (st : St) (toks : List String) : St × String :=
       line st s!"start out={out} real={b01 real} mock={b01 mock}" s'
     | none => (st, "bad-op")
   | "commit" :: rest =>
-    match (kv rest "crash").bind parseCrash with
+    match (if midOk rest then (kv rest "crash").bind parseCrash else none) with
     | some k =>
       if !(st.sys.up && st.sys.live) then line st "commit out=not-up" st.sys
       else if nxt c st.sys.disk.stateH ≥ st.ih + st.blocks.length then line st "commit out=no-block" st.sys
@@ -235,7 +248,7 @@ def step (st : St) (toks : List String) : St × String :=
   | "rel" :: rest =>
     match st.ms, (kv rest "what").bind parseRel with
     | some s, some e =>
-      if (st.ver = .v0a ∨ st.ver = .v1a) ∧ e = .relFlush then (st, "not-enabled") else mpEv st s e
+      mpEv st s e
     | _, _ => (st, "bad-op")
   | _ => (st, "bad-op")
 
